@@ -20,6 +20,7 @@ import (
 	"mosn.io/mosn/pkg/featuregate"
 	_ "mosn.io/mosn/pkg/filter/network/proxy"
 	"mosn.io/mosn/pkg/log"
+	"mosn.io/mosn/pkg/metrics"
 	_ "mosn.io/mosn/pkg/protocol" // registers the x-mosn-host / x-mosn-path variables used by MatchRoute
 	"mosn.io/mosn/pkg/router"
 	"mosn.io/mosn/pkg/server"
@@ -38,6 +39,7 @@ func setup() {
 	log.DefaultLogger.SetLogLevel(log.FATAL)
 	log.Proxy.SetLogLevel(log.FATAL)
 	log.StartLogger.SetLogLevel(log.FATAL)
+	metrics.SetStatsMatcher(true, nil, nil) // no metrics: every case uses fresh object names, the registries would only grow
 	// the process singletons every runtime-update entry point works on
 	router.NewRouterManager()
 	cm := cluster.NewClusterManagerSingleton(nil, nil, nil)
